@@ -92,6 +92,13 @@ pub fn programs(tier: Tier) -> ProgramSet {
         let mut d = VariantSpec::unit("Zz");
         d.disabled = true;
         base.variants.insert(1, d);
+        {
+            // the disabled variant carries a payload without Default (never constructed)
+            let mut s = base.clone();
+            s.variants[1].kind = Kind::Tuple(vec![FieldTy::Nd, FieldTy::Raw("&'static vf_core::Nd".into(), "-".into())]);
+            let source = render(&s);
+            out.push(Program { idx: 0, label: "N=3 + disabled variant middle with a payload that has no Default".into(), k: 1, spec: s, aux: json!(null), source });
+        }
         for d in crate::devs::rare_shape_devs(4, false).into_iter().chain(crate::devs::syntax_devs(true, false, true, false)) {
             let mut s = base.clone();
             if (d.apply)(&mut s) && s != base {
